@@ -112,9 +112,13 @@ def model_derive(name, parent_rec, kw):
     return rec
 
 
+#: documented short names of the ident values (docs/lib/passlib.hash.bcrypt.rst, phpass.rst) -- not read from the hasher
+DOC_IDENT_ALIASES = {"2": "$2$", "2a": "$2a$", "2y": "$2y$", "2b": "$2b$", "P": "$P$", "H": "$H$"}
+
+
 def norm_ident(h, ident):
     vals = list(getattr(h, "ident_values", ()) or ())
-    aliases = getattr(h, "ident_aliases", None) or {}
+    aliases = {k: v for k, v in DOC_IDENT_ALIASES.items() if k in (getattr(h, "ident_aliases", None) or {}) and v in vals}
     if ident in vals:
         return ident
     if ident in aliases:
@@ -184,6 +188,13 @@ def probe(rec, name, node_obj, node_rec, cheap, where, hist, soft):
             if not ok:
                 fail(f"{where}-cost", f"{where}: hash does not carry the configured default cost", r, d)
                 return False
+    # a hasher never asks to replace the hash it has just made (C09: "honours its settings")
+    no_odd_value = name == "bsdi_crypt" and node_rec["min"] and node_rec["min"] == node_rec["max"] and node_rec["min"] % 2 == 0  # window without an odd value: unsatisfiable
+    if hasattr(node_obj, "needs_update") and not no_odd_value:
+        st, nu = call(node_obj.needs_update, hs)
+        if st == "err" or nu is not False:
+            fail(f"{where}-flags-own-hash", f"{where}: needs_update() of the hasher's own fresh hash is not False", repr(nu), False)
+            return False
     salt = getattr(obj, "salt", None)
     if salt is not None and node_rec["salt_size"] is not None and "salt_size" in h.setting_kwds and len(salt) != node_rec["salt_size"] and not hs.startswith("$7$"):
         fail(f"{where}-salt-size", f"{where}: hash does not carry the configured salt size", len(salt), node_rec["salt_size"])
@@ -279,8 +290,9 @@ def apply_ops(rec, hist, soft=False):
             hs = h.using(**kw).hash("pw", **ctx)
             rr = ctxmodel_parse(name, hs).rounds
             want = bool((nrec["min"] and rr < nrec["min"]) or (nrec["max"] and rr > nrec["max"]) or ctxmodel.scheme_flag(name if name != "ldap_sha256_crypt" else "sha256_crypt", hs))
-            if name in ("scrypt",):
-                continue
+            if name == "scrypt":
+                # documented in the source: hashes whose block size is not the hasher's configured one are flagged as well
+                want = want or (ctxmodel_parse(name, hs).block_size != (nrec["extra"].get("block_size") or 8))
             st, got = call(obj.needs_update, hs)
             if st == "err" or got is not want:
                 rec.fail(f"C09/needs-update/{name}", f"needs_update() of a hash with {rr} rounds is {got!r}; the node's window is [{nrec['min']}, {nrec['max']}]", "history", sub, repr(got), want, soft=soft)
@@ -348,7 +360,7 @@ def kw_strategy(name, first):
         parts["truncate_error"] = st.sampled_from([True, False, "true", "false", "yes", "0"])
     if name == "scrypt":
         parts["block_size"] = st.sampled_from([1, 2, 8, "2", 0])
-        parts["parallelism"] = st.sampled_from([1, 2, 3, 0])
+        parts["parallelism"] = st.sampled_from([1, 2, 3, 0, "2", "3"])
     if name == "fshp":
         parts["variant"] = st.sampled_from([0, 1, 2, 3, "sha256", "1", 7, "md5"])
     if name == "unix_disabled":
